@@ -46,8 +46,12 @@ def _apply(ex, fr, tmpl, node, keep=()):
             v = v.make(ex.ctx)
         if "." in name:
             obj, att = name.split(".", 1)
+            if obj not in fr.vars or not hasattr(fr.vars[obj], "attrs"):
+                raise Unsupported(f"the loop contract describes '{name}', which this function does not have (restructured code)")
             fr.vars[obj].attrs[att] = v
         else:
+            if name not in fr.vars and name not in fr.local_names:
+                raise Unsupported(f"the loop contract describes a local '{name}' that this function does not have (renamed or restructured code)")
             cur = fr.vars.get(name)
             if isinstance(v, (RFile, WFile)) and type(cur) is type(v):
                 cur.__dict__.update(v.__dict__)      # keep the handle's identity (with-blocks, registrations)
@@ -58,7 +62,12 @@ def _apply(ex, fr, tmpl, node, keep=()):
 def _get(fr, name):
     if "." in name:
         obj, att = name.split(".", 1)
+        if obj not in fr.vars or not hasattr(fr.vars[obj], "attrs"):
+            raise Unsupported(f"the loop contract describes '{name}', which this function does not have (restructured code)")
         return fr.vars[obj].attrs.get(att, Havoced(name))
+    if name not in fr.vars and name not in fr.local_names:
+        # a local of another name is not a violation: the invariant is stated over the names the contract was written for
+        raise Unsupported(f"the loop contract describes a local '{name}' that this function does not have (renamed or restructured code)")
     return fr.vars.get(name, Havoced(name))
 
 
